@@ -4,7 +4,7 @@
 # repository's tests, demo fails with / passes without; then runs our check against it.
 set -u
 id=$1; P=${2:-$(echo $id | tr a-z A-Z)}
-OUT=/tmp/seedout-$id; SV=/tmp/sv-$id
+OUT=${3:-/tmp/seedout-$id}; SID=${4:-$id}; SV=/tmp/sv-$id
 export GOFLAGS=-mod=mod GOPROXY=off GOSUMDB=off GOTOOLCHAIN=local
 [ -f $OUT/patch.diff ] || { echo "no patch"; exit 2; }
 git -C /repo worktree remove --force $SV 2>/dev/null
@@ -30,14 +30,14 @@ git -C /repo apply $OUT/patch.diff && ./check $P > /tmp/sv-$id-check.log 2>&1; e
 git -C /repo checkout -- . ; git -C /repo status --short | grep -v runcounter
 grep -v "^KNOWN" /tmp/sv-$id-check.log | cut -c1-260 | tail -8
 # store
-D=/verif/seeded/$id; mkdir -p $D; cp $OUT/patch.diff $D/; rm -rf $D/demo; cp -r $OUT/demo $D/demo; cp $OUT/notes.md $D/notes.md 2>/dev/null
-python3 - "$id" "$P" <<'PY'
+D=/verif/seeded/$SID; mkdir -p $D; cp $OUT/patch.diff $D/; rm -rf $D/demo; cp -r $OUT/demo $D/demo; cp $OUT/notes.md $D/notes.md 2>/dev/null
+python3 - "$id" "$P" "$OUT" "$SID" <<'PY'
 import json,sys,re,os
-id,P=sys.argv[1],sys.argv[2]
+id,P,OUT,SID=sys.argv[1],sys.argv[2],sys.argv[3],sys.argv[4]
 log=open('/tmp/sv-%s-check.log'%id).read()
 viol=[l.strip() for l in log.splitlines() if l.startswith('  ') and ':' in l]
 caught='VIOLATION property=%s'%P in log
-notes=open('/tmp/seedout-%s/notes.md'%id).read() if os.path.exists('/tmp/seedout-%s/notes.md'%id) else ''
+notes=open(OUT+'/notes.md').read() if os.path.exists(OUT+'/notes.md') else ''
 suite=open('/tmp/sv-%s-suite.log'%id).read().strip()
 w=open('/tmp/sv-%s-with.log'%id).read()[-400:]
 wo=open('/tmp/sv-%s-without.log'%id).read()[-300:]
@@ -46,6 +46,6 @@ meta={"property":P,"origin":"fresh sub-agent given only the property text and a 
  "verified":{"patch_applies_on_repo_head":True,"repo_builds":True,"existing_suite_with_patch":"only the 2 pre-existing walnut failures" if not suite else "BROKEN: "+suite,
    "demo_with_patch_tail":w,"demo_without_patch_tail":wo},
  "our_check":{"command":"git -C /repo apply patch.diff; ./check %s (quick tier); git -C /repo checkout -- ."%P,"caught":caught,"violation_clauses":[re.sub(r'\s+',' ',v)[:300] for v in viol][:8]}}
-json.dump(meta,open('/verif/seeded/%s/meta.json'%id,'w'),indent=1)
-print("STORED seeded/%s caught=%s"%(id,caught))
+json.dump(meta,open('/verif/seeded/%s/meta.json'%SID,'w'),indent=1)
+print("STORED seeded/%s caught=%s"%(SID,caught))
 PY
